@@ -217,6 +217,8 @@ fn main() {
 	let mut seed = 0u64;
 	let mut out_path = String::new();
 	let mut type_filter = None;
+	let mut type_exact = None;
+	let mut listing = false;
 	let mut scale = 1usize;
 	let mut part = String::new();
 	let mut i = 1;
@@ -229,6 +231,8 @@ fn main() {
 			"--seed" => { seed = args[i + 1].parse().unwrap(); i += 2 },
 			"--out" => { out_path = args[i + 1].clone(); i += 2 },
 			"--types" => { type_filter = Some(args[i + 1].clone()); i += 2 },
+			"--type-exact" => { type_exact = Some(args[i + 1].clone()); i += 2 },
+			"--list" => { listing = true; i += 1 },
 			"--scale" => { scale = args[i + 1].parse().unwrap(); i += 2 },
 			"--part" => { part = args[i + 1].clone(); i += 2 },
 			x => { eprintln!("unknown arg {}", x); std::process::exit(2) },
@@ -240,7 +244,7 @@ fn main() {
 		Box::new(std::io::BufWriter::new(std::fs::File::create(&out_path).expect("create out")))
 	};
 	let mut ctx = Ctx {
-		prop: prop.clone(), tier, seed, out, records: 0, scale, type_filter,
+		prop: prop.clone(), tier, seed, out, records: 0, scale, type_filter, type_exact, listing,
 		per_type: Default::default(), stats: Default::default(),
 	};
 	match cmd.as_str() {
